@@ -182,6 +182,11 @@ C11All(u) ==
     \cup { [id |-> "C11/alloc/stress/" \o ToString(pb), label |-> "alloc/stress/" \o ToString(pb), kind |-> "alloc",
             extra |-> [pid_base |-> pb, echo_base |-> 0, callers |-> <<[m |-> 1, n |-> 1]>>, stress |-> [g |-> 16, n |-> 120, m |-> 30, rounds |-> IF Tier = "quick" THEN 150 ELSE 1500]]]
             : pb \in {0, 65000} }
+    \* ... and rounds that all START just below the 16-bit rollover (few blocks per caller: every caller is active when the counter wraps)
+    \cup { [id |-> "C11/alloc/stress/wrap/" \o ToString(rb), label |-> "alloc/stress/at_rollover/" \o ToString(rb), kind |-> "alloc",
+            extra |-> [pid_base |-> rb, echo_base |-> 0, callers |-> <<[m |-> 1, n |-> 1]>>,
+                       stress |-> [g |-> 16, n |-> 4, m |-> 30, rounds |-> IF Tier = "quick" THEN 1500 ELSE 15000, reset_base |-> rb]]]
+            : rb \in {65440, 65500} }
     \cup { C11Alloc(pb, eb, cs) : pb \in {0, 65000, 65535, 131000}, eb \in {0, 65530, 65535},
               cs \in { <<[m |-> 255, n |-> 4], [m |-> 255, n |-> 4], [m |-> 30, n |-> 8], [m |-> 1, n |-> 8]>>, <<[m |-> 30, n |-> 20], [m |-> 30, n |-> 20]>> } }
 
